@@ -1,11 +1,14 @@
 import WindVerif.Proofs.RecordFile
+import WindVerif.Proofs.JsonRecords
 /-!
 # C13 — Records survive save/load and record files are sequences of records
 
 Property theorems only (proofs in `Proofs/Records.lean`).  CSV/TSV: the writer (QUOTE_MINIMAL, excel dialect) followed by the
 reader state machine is the identity on field lists without line breaks — also for the line as a saved record file holds it
 (trailing `\r`) and for a bare row —, a saved row is a single line, and the class-level buffer is reset after every row.
-JSON: under the stated library assumption.  Record files are the line files of C11/C12 with `load` applied per line, so
+JSON: under the stated library assumption (`json_glue`), and — the assumption discharged — for the executable model of
+`json.dumps(…, separators=(',', ':'))` / `json.loads` in `Model/Json.lean` (`json_encode_single_line`, `json_decode_encode`,
+`json_record_roundtrip`).  Record files are the line files of C11/C12 with `load` applied per line, so
 index / slice / iteration / edit / save / reopen follow from C11, C12 and the round trips here.
 -/
 namespace WindVerif.C13
@@ -42,6 +45,25 @@ theorem buffer_reset (rows : List (Char × List Str)) :
 theorem json_glue {V} (L : JsonLib V) (names : List Str) (r : List (Str × V)) (hr : r.map (·.1) = names) :
     jsonLoad L names (jsonSave L r) = some r ∧ '\n' ∉ jsonSave L r ∧ '\r' ∉ jsonSave L r := by
   first | exact WindVerif.Records.json_glue .. | (apply WindVerif.Records.json_glue <;> assumption)
+
+/-- the modelled `json.dumps(v, separators=(',', ':'))` (`ensure_ascii=True`) never emits a line break: its output is
+printable ASCII (`WindVerif.Json.encode_printable`) -/
+theorem json_encode_single_line (v : WindVerif.Json.JVal) (h : WindVerif.Json.WF v) :
+    '\n' ∉ WindVerif.Json.encode v ∧ '\r' ∉ WindVerif.Json.encode v := by
+  first | exact WindVerif.Json.encode_single_line .. | (apply WindVerif.Json.encode_single_line <;> assumption)
+
+/-- the modelled `json.loads` inverts the modelled `json.dumps` on well-formed values (float lexemes of the shape of
+`repr(float)`, dicts with pairwise distinct keys) -/
+theorem json_decode_encode (v : WindVerif.Json.JVal) (h : WindVerif.Json.WF v) :
+    WindVerif.Json.decode (WindVerif.Json.encode v) = some v := by
+  first | exact WindVerif.Json.decode_encode .. | (apply WindVerif.Json.decode_encode <;> assumption)
+
+/-- `json_glue` without the library assumption: a `JsonRecord` (pairwise distinct field names, well-formed values) survives
+save/load through the modelled `json` module, and the saved text is a single line -/
+theorem json_record_roundtrip (names : List Str) (hn : names.Nodup) (r : List (Str × WindVerif.Json.JVal))
+    (hr : r.map (·.1) = names) (hv : ∀ kv ∈ r, WindVerif.Json.WF kv.2) :
+    jsonRecordLoad names (jsonRecordSave r) = some r ∧ '\n' ∉ jsonRecordSave r ∧ '\r' ∉ jsonRecordSave r := by
+  first | exact WindVerif.Records.json_record_roundtrip .. | (apply WindVerif.Records.json_record_roundtrip <;> assumption)
 
 /-- a mutable record file that is edited, saved and reopened yields the same records: the `'\n'`-delimited lines of the saved
 file (C11's reference `refLines`), each parsed by the record class, are exactly the records stored (C12's `save_spec` gives
